@@ -4,8 +4,11 @@ import (
 	"context"
 	"fmt"
 	"math/big"
+	"runtime"
 	"sort"
 	"strings"
+	"sync/atomic"
+	"time"
 
 	"verif/ref"
 	"verif/vstore"
@@ -41,7 +44,9 @@ func (o Op) String() string {
 	switch o.K {
 	case "sub", "subw", "mark", "unmark":
 		return o.K + "(" + o.L + ")"
-	case "cleand", "reloadd", "grow", "growside":
+	case "fullrace":
+		return o.K
+	case "cleand", "reloadd", "grow", "growside", "growlag":
 		return fmt.Sprintf("%s(%d)", o.K, o.D)
 	}
 	return o.K
@@ -239,6 +244,7 @@ func (w *World) isMarked(h bitcoin.Hash32) bool {
 // Apply performs one operation on the real repository and updates the model.
 func (w *World) Apply(op Op) *Step {
 	st := Step{Op: op, PreTip: w.tipHash()}
+	var lagPre [][]bitcoin.Hash32 // what lagging subscribers read while a growlag operation was under way
 	Safe(func() error { w.heightNow = w.Repo.Height(); return nil })
 	switch op.K {
 	case "sub", "subw":
@@ -321,6 +327,148 @@ func (w *World) Apply(op Op) *Step {
 				break
 			}
 			w.Tree.Add(RH(u.Hash), RH(u.Header.PrevBlock), u.Header.Bits, u.Label)
+		}
+	case "growlag":
+		// D unit-work headers B1..BD on genesis, submitted by a second goroutine while the subscribers
+		// do not read: they only start reading once the producer has finished or has stopped making
+		// progress with a subscriber's buffer full (a subscriber that lags behind by more than the
+		// buffer holds). Nothing may be lost or reordered.
+		if w.tipHash() != Genesis().Hash {
+			break
+		}
+		var progress atomic.Int64
+		done := make(chan struct{})
+		go func() {
+			defer close(done)
+			for i := 1; i <= op.D; i++ {
+				u := Get(BaseLabel(i))
+				hc := u.Header.Copy()
+				err, p := Safe(func() error { return w.Repo.ProcessHeader(w.Ctx, &hc) })
+				w.Submitted[u.Label] = true
+				if p != "" {
+					st.Panic = p
+					return
+				}
+				if err != nil {
+					st.Err = err.Error()
+					return
+				}
+				w.Tree.Add(RH(u.Hash), RH(u.Header.PrevBlock), u.Header.Bits, u.Label)
+				progress.Add(1)
+			}
+		}()
+		lagPre = make([][]bitcoin.Hash32, len(w.Subs))
+		finished := false
+		last, since := int64(-1), time.Now()
+		for !finished {
+			select {
+			case <-done:
+				finished = true
+				continue
+			default:
+			}
+			if n := progress.Load(); n != last {
+				last, since = n, time.Now()
+				time.Sleep(50 * time.Microsecond)
+				continue
+			}
+			if time.Since(since) < 5*time.Millisecond {
+				time.Sleep(50 * time.Microsecond)
+				continue
+			}
+			// the producer makes no progress; where a buffer is full it is waiting for that
+			// subscriber, which now catches up a little
+			for i, s := range w.Subs {
+				if len(s.Ch) < cap(s.Ch) {
+					continue
+				}
+				for k := 0; k < 64; k++ {
+					select {
+					case h := <-s.Ch:
+						lagPre[i] = append(lagPre[i], *h.BlockHash())
+						s.replay(h)
+					default:
+					}
+				}
+			}
+			since = time.Now()
+		}
+	case "fullrace":
+		// Two submitters at once while a subscriber's buffer is exactly full: 9999 headers B1.., a
+		// side header S1 = B9998/a (a sibling of B9999 with the same work: not announced), B10000
+		// (10000 announcements in all), then submitter 1 offers S2 = S1/H (double work) - a
+		// reorganisation announcing S1 and S2, which has to wait for the subscriber - and, once it is
+		// waiting, submitter 2 offers S3 = S2/a. Only then does the subscriber read. It must see
+		// ..., S1, S2, S3 in that order.
+		if w.tipHash() != Genesis().Hash || len(w.Subs) == 0 {
+			break
+		}
+		submit := func(label string) (error, string) {
+			u := Get(label)
+			hc := u.Header.Copy()
+			err, p := Safe(func() error { return w.Repo.ProcessHeader(w.Ctx, &hc) })
+			w.Submitted[label] = true
+			return err, p
+		}
+		accept := func(label string) {
+			u := Get(label)
+			w.Tree.Add(RH(u.Hash), RH(u.Header.PrevBlock), u.Header.Bits, u.Label)
+		}
+		ok := true
+		for i := 1; i <= 10000 && ok; i++ {
+			if i == 10000 {
+				if err, p := submit("B9998/a"); err != nil || p != "" {
+					st.Err, st.Panic, ok = fmt.Sprint(err), p, false
+					break
+				}
+				accept("B9998/a")
+			}
+			if err, p := submit(BaseLabel(i)); err != nil || p != "" {
+				st.Err, st.Panic, ok = fmt.Sprint(err), p, false
+				break
+			}
+			accept(BaseLabel(i))
+		}
+		if !ok {
+			break
+		}
+		var err2, err3 error
+		var p2, p3 string
+		done2, done3 := make(chan struct{}), make(chan struct{})
+		go func() { defer close(done2); err2, p2 = submit("B9998/a/H") }()
+		waitForSenders(1, 2*time.Second) // submitter 1 is waiting for the subscriber
+		go func() { defer close(done3); err3, p3 = submit("B9998/a/H/a") }()
+		// submitter 2 is either waiting for the repository (behind submitter 1) or for the subscriber
+		waitForSenders(2, 100*time.Millisecond)
+		lagPre = make([][]bitcoin.Hash32, len(w.Subs))
+		for pending := 2; pending > 0; {
+			select {
+			case <-done2:
+				done2 = nil
+				pending--
+			case <-done3:
+				done3 = nil
+				pending--
+			default:
+				for i, s := range w.Subs {
+					select {
+					case h := <-s.Ch:
+						lagPre[i] = append(lagPre[i], *h.BlockHash())
+						s.replay(h)
+					default:
+					}
+				}
+			}
+		}
+		if p2 != "" || p3 != "" {
+			st.Panic = p2 + p3
+		}
+		if err2 == nil && p2 == "" {
+			accept("B9998/a/H")
+		}
+		// submitter 2 may have got in first (then its header has no known parent yet and is refused)
+		if err3 == nil && p3 == "" && err2 == nil {
+			accept("B9998/a/H/a")
 		}
 	case "clean":
 		w.notePrune(10000)
@@ -434,8 +582,11 @@ func (w *World) Apply(op Op) *Step {
 	}
 
 	// Drain subscriber channels.
-	for _, s := range w.Subs {
+	for i, s := range w.Subs {
 		var batch []bitcoin.Hash32
+		if i < len(lagPre) {
+			batch = lagPre[i]
+		}
 	drain:
 		for {
 			select {
@@ -491,6 +642,23 @@ func (w *World) Apply(op Op) *Step {
 	}
 	w.Steps = append(w.Steps, st)
 	return &w.Steps[len(w.Steps)-1]
+}
+
+// waitForSenders waits until at least n goroutines are blocked sending on a channel inside the
+// headers package (an announcement waiting for a subscriber), or the time is up.
+func waitForSenders(n int, max time.Duration) {
+	buf := make([]byte, 1<<20)
+	for t0 := time.Now(); time.Since(t0) < max; time.Sleep(200 * time.Microsecond) {
+		k := 0
+		for _, g := range strings.Split(string(buf[:runtime.Stack(buf, true)]), "\n\n") {
+			if strings.Contains(g, "[chan send") && strings.Contains(g, "bitcoin_reader/headers.(*Repository)") {
+				k++
+			}
+		}
+		if k >= n {
+			return
+		}
+	}
 }
 
 // IsMarkedLabel reports whether the label is currently marked invalid.
